@@ -27,6 +27,7 @@ protocol, as implemented in bzr 0.11 and later.
 import os
 
 from ... import urlutils
+from dromedary import errors as transport_errors
 from . import request
 
 
@@ -89,7 +90,13 @@ class VfsRequest(request.SmartServerRequest):
             A string path suitable for use on the server side.
         """
         x = request.SmartServerRequest.translate_client_path(self, relpath)
-        return str(urlutils.unescape(x))
+        result = str(urlutils.unescape(x))
+        lowered = result.lower()
+        if "%2f" in lowered or "%5c" in lowered:
+            # A doubly encoded path separator: the transports underneath
+            # would decode it into a real one.
+            raise transport_errors.PathNotChild(result, self._root_client_path)
+        return result
 
 
 class HasRequest(VfsRequest):
